@@ -9,7 +9,7 @@ RULE = ("what=plot1 (55%): 1-D histograms (1..7 irregular consecutive bins, int 
         "title / axis name) x kind in matplotlib bar / scatter / line / fill / step, plotly bar / scatter / line x density x "
         "cumulative x errors x show_values x ticks (none / center / edge) x title / xlabel / ylabel overrides; what=plot2 (25%): 2-D "
         "histograms x matplotlib map (show_zero on/off, colour map Greys / viridis / default, density) / image (regular and "
-        "irregular bins) / plotly map; what=ticks (8%): TimeTickHandler with levels sec / min / hour / day x multipliers over "
+        "irregular bins) / bar3d / polar_map of PolarHistograms / plotly map; what=ticks (8%): TimeTickHandler with levels sec / min / hour / day x multipliers over "
         "ranges with negative and fractional bounds, and edge / center; what=refusal (7%): wrong dimension for every kind of every "
         "backend, unknown backend, unknown kind; what=ascii (5%): hbar widths 10..120 with / without values. non-trivial = plot with "
         "density or cumulative or errors, or any 2-D plot")
@@ -58,7 +58,7 @@ def gen(rng, n, tier):
                    ["meta", [[k, v] for k, v in meta.items()]], ["over", [[k, v] for k, v in over.items()]],
                    ["want_labels", want if not kind.startswith("plotly") else "n/a"]]
         elif r < 0.8:
-            kind = rng.choice(["map", "map", "image", "plotly_map"])
+            kind = rng.choice(["map", "map", "image", "plotly_map", "polar_map", "bar3d"])
             regular = kind == "image" and rng.random() < 0.6
             mixed = kind == "image" and not regular and rng.random() < 0.6
             reg_axis = rng.randint(0, 1)
@@ -70,12 +70,21 @@ def gen(rng, n, tier):
                     isreg = regular or (mixed and a == reg_axis)
                     y = fl(float(x) + (w0 if isreg else (rng.uniform(0.2, 2) if not mixed else (0.5 if k else 1.75)))); b.append([x, y]); x = y
                 axes.append(b)
+            if kind == "polar_map":
+                import math
+                x = fl(rng.choice([0.0, 0.5])); r = []
+                for _ in range(rng.randint(1, 4)):
+                    y = fl(float(x) + rng.uniform(0.3, 2)); r.append([x, y]); x = y
+                k = rng.randint(1, 5); e = [fl(2 * math.pi * j / k) for j in range(k + 1)]
+                axes = [r, [[e[j], e[j + 1]] for j in range(k)]]
             size = len(axes[0]) * len(axes[1])
             ints = rng.random() < 0.5
             freq = [rng.choice([0, 0, 1, 2, 5, 17]) if ints else fl(rng.choice([0.0, rng.random() * 10])) for _ in range(size)]
             if all(f == 0 for f in freq): freq[0] = 2 if ints else fl(1.5)
             meta = {"title": rng.choice(["none", "T"]), "names": rng.choice(["none", ["xx", "yy"]])}
             want = [meta["title"] if meta["title"] != "none" else "", "axis0" if meta["names"] == "none" else "xx", "axis1" if meta["names"] == "none" else "yy"]
+            if kind == "polar_map": want = "n/a"
+            if kind == "polar_map" and meta["names"] == "none": pass
             yield [["bucket", "plot2/" + kind + ("/regular" if regular else "")], ["what", "plot2"], ["kind", kind], ["axes", axes], ["freq", freq], ["ints", "T" if ints else "F"],
                    ["density", rng.choice("TF") if kind != "plotly_map" else "F"], ["show_zero", rng.choice("TF")], ["cmap", rng.choice(["none", "Greys", "viridis", "coolwarm"])],
                    ["meta", [[k, v] for k, v in meta.items()]], ["want_labels", want if kind != "plotly_map" else "n/a"]]
@@ -222,14 +231,29 @@ def _plot2(d, f):
     m = dict(d["meta"]); kw0 = {}
     if m["title"] != "none": kw0["title"] = m["title"]
     if m["names"] != "none": kw0["axis_names"] = m["names"]
-    h = Histogram2D(bs, np.array([conv(x) for x in d["freq"]]).reshape(shape), **kw0)
+    if d["kind"] == "polar_map":
+        from physt.special_histograms import PolarHistogram
+        h = PolarHistogram(bs, np.array([conv(x) for x in d["freq"]]).reshape(shape), **kw0)
+    else:
+        h = Histogram2D(bs, np.array([conv(x) for x in d["freq"]]).reshape(shape), **kw0)
     before = _snap(h)
     kind = d["kind"]; kw = {}
     if d["density"] == "T": kw["density"] = True
     if d["cmap"] != "none" and kind != "plotly_map": kw["cmap"] = d["cmap"]
     out = [["axes", [[[float(a), float(b)] for a, b in bb.bins.tolist()] for bb in h._binnings]], ["freq", f(h.frequencies)]]
     try:
+        boxes = []
         if kind == "plotly_map": fig = h.plot("map", backend="plotly")
+        elif kind == "polar_map": ax = h.plot("polar_map", backend="matplotlib", show_zero=d["show_zero"] == "T", **kw)
+        elif kind == "bar3d":
+            from mpl_toolkits.mplot3d import Axes3D
+            orig = Axes3D.bar3d
+            def rec(self, x, y, z, dx, dy, dz, *a, **k):
+                boxes.extend([[float(a_) for a_ in t] for t in zip(*(np.broadcast_arrays(x, y, z, dx, dy, dz)))])
+                return orig(self, x, y, z, dx, dy, dz, *a, **k)
+            Axes3D.bar3d = rec
+            try: ax = h.plot("bar3d", backend="matplotlib", **{k: v for k, v in kw.items() if k != "cmap"})
+            finally: Axes3D.bar3d = orig
         elif kind == "map": ax = h.plot("map", backend="matplotlib", show_zero=d["show_zero"] == "T", **kw)
         else: ax = h.plot("image", backend="matplotlib", **kw)
     except (ValueError, TypeError) as e:
@@ -237,7 +261,9 @@ def _plot2(d, f):
     if kind == "plotly_map":
         t = fig.data[0]
         out += [["z", f(np.asarray(t.z))], ["zx", f(t.x)], ["zy", f(t.y)], ["labels", "n/a"]]
-    elif kind == "map":
+    elif kind == "bar3d":
+        out += [["boxes", boxes], ["labels", [ax.get_title(), ax.get_xlabel(), ax.get_ylabel()]]]
+    elif kind in ("map", "polar_map"):
         from matplotlib import patches as mp, colors as mc
         main = ax  # the colourbar lives in another axes
         cmap = plt.get_cmap(d["cmap"]) if d["cmap"] != "none" else None
@@ -249,7 +275,7 @@ def _plot2(d, f):
         def tof(c):
             c = np.asarray(mc.to_rgba(c)); return float(np.argmin(((table - c) ** 2).sum(axis=1))) / 255.0
         out += [["rects", [[float(p.get_x()), float(p.get_y()), float(p.get_width()), float(p.get_height()), tof(p.get_facecolor())] for p in rects]],
-                ["labels", [main.get_title(), main.get_xlabel(), main.get_ylabel()]]]
+                ["labels", [main.get_title(), main.get_xlabel(), main.get_ylabel()] if kind == "map" else "n/a"]]
     else:
         im = ax.images[0]
         out += [["image", f(np.asarray(im.get_array()))], ["extent", [float(x) for x in im.get_extent()]], ["labels", [ax.get_title(), ax.get_xlabel(), ax.get_ylabel()]]]
